@@ -50,12 +50,18 @@ func decodeValue(t interface{}) interface{} {
 	case "bool":
 		return a[1].(bool)
 	case "num":
+		if a[2].(float64) == 0 {
+			return bigTable[int(a[1].(float64))-1]
+		}
 		return a[1].(float64) / a[2].(float64)
 	case "str":
 		return cpsToString(a[1])
 	case "arr":
-		out := []interface{}{}
-		for _, x := range a[1].([]interface{}) {
+		xs := a[1].([]interface{})
+		// two elements of spare capacity: a write beyond len() is a write into the caller's memory and is
+		// visible to the capacity-aware snapshot comparison (C06)
+		out := make([]interface{}, 0, len(xs)+2)
+		for _, x := range xs {
 			out = append(out, decodeValue(x))
 		}
 		return out
@@ -69,6 +75,9 @@ func decodeValue(t interface{}) interface{} {
 	}
 	panic("decodeValue: unknown tag " + a[0].(string))
 }
+
+// whole numbers beyond int64, BigDigits of JSONValue.tla
+var bigTable = []float64{1e19, 18446744073709551616, 1e25}
 
 // snapRational maps a float to a small rational p/q (continued fractions, relative tolerance 1e-12,
 // denominator <= 10^6) so that TLC can compare exact values; ok=false when it does not snap.
@@ -231,6 +240,9 @@ func matchValue(obs interface{}, allowed interface{}, inexact bool) bool {
 			return false
 		}
 		want := a[1].(float64) / a[2].(float64)
+		if a[2].(float64) == 0 {
+			want = bigTable[int(a[1].(float64))-1]
+		}
 		if f == want {
 			return true
 		}
@@ -333,10 +345,32 @@ func matchOutcome(o Obs, allowed []interface{}, inexact bool) (bool, bool) {
 	return member, false
 }
 
+// snapshotCap copies a document including the hidden capacity of every slice (elements between len and cap),
+// so that a write into spare capacity is seen by sameWithCap.
+func snapshotCap(v interface{}) interface{} {
+	switch t := v.(type) {
+	case []interface{}:
+		full := t[:cap(t)]
+		out := make([]interface{}, len(full)+1)
+		out[0] = float64(len(t))
+		for i, x := range full {
+			out[i+1] = snapshotCap(x)
+		}
+		return out
+	case map[string]interface{}:
+		out := make(map[string]interface{}, len(t))
+		for k, x := range t {
+			out[k] = snapshotCap(x)
+		}
+		return out
+	}
+	return v
+}
+
 func deepCopy(v interface{}) interface{} {
 	switch t := v.(type) {
 	case []interface{}:
-		out := make([]interface{}, len(t))
+		out := make([]interface{}, len(t), cap(t))
 		for i, x := range t {
 			out[i] = deepCopy(x)
 		}
